@@ -62,7 +62,7 @@ func runC06(c *Ctx, idx int, o *Obs) {
 	opts := gen.Opts{
 		N: n, Shape: gen.Pick(r, "random", "random", "random", "caterpillar", "balanced", "star", "broom"),
 		RootDeg: gen.Pick(r, 0, 2, 2, 3, 3, 5), MultiP: gen.Pick(r, 0.0, 0.3, 0.6),
-		Lens: gen.Pick(r, "all", "all", "mixed", "none"), LenCls: gen.Pick(r, "len", "tie", "dec"),
+		Lens: gen.Pick(r, "all", "all", "mixed", "none"), LenCls: gen.Pick(r, "len", "tie", "dec", "neg"),
 		SupP: gen.Pick(r, 0.0, 0.5, 1.0), SupCls: "unit", InnerNameP: gen.Pick(r, 0.0, 0.2),
 		Names: gen.Pick(r, "simple", "simple", "hostile"),
 	}
